@@ -49,5 +49,6 @@ RULES = [
     ("C08.addreplace", lambda c, r: __import__("sa.rules.lfht2", fromlist=["x"]).rule_addreplace(c, r, "C08.addreplace")),   # what add_replace returns: NULL iff own node inserted, the old node only after a successful replace, retry otherwise
     ("C08.walkstart", lambda c, r: __import__("sa.rules.lfht2", fromlist=["x"]).rule_walkstart(c, r, "C08.walkstart")),   # whole-table walks start at bucket 0
     ("C08.rhinit", lambda c, r: __import__("sa.rules.lfht2", fromlist=["x"]).rule_rhinit(c, r, "C08.rhinit")),   # node->reverse_hash = bit_reverse_ulong(hash) before linking, in every entry point
+    ("C08.alloc", lambda c, r: __import__("sa.rules.lfht2", fromlist=["x"]).rule_allocdiscipline(c, r, "C08.alloc")),   # memory of a table goes through its cds_lfht_alloc only
 ]
 FLOORS = {}
